@@ -25,6 +25,10 @@ CLAIMED = {
             "runtime monitor: hostile byte strings into every point/scalar decoder (20 groups) and every composite parser entry point, child process per batch with a pre-execution journal; accepted points re-checked by independent math/big membership models and cross-decoded by sibling back-ends; thorough tier repeats the decoder batch under -race (checkptr)",
             "Judges 'error or usable value, never panic': every accepted value is used (String, Equal, Clone, Add, Mul, Neg, Sub, Data, re-encode/re-decode), and accepted points must satisfy the independent curve equation / subgroup test. Parsers (Schnorr, EdDSA, BLS, TBLS, BDN, CoSi, proofs, shuffles, ECIES, anon, VSS deals incl. deals sealed through the real encryption path) are fed mutated valid messages.",
             "math/big curve models (Ed25519, P-256, BN G1, BN twist, BLS12-381 G1); q*P=O through the group's own arithmetic for BLS12-381 G2 and BN254 G2; recover() catches panics, the driver attributes process-fatal errors to the journaled input."),
+    "C20": ("exploration",
+            "Go race detector (-race build, GORACE log parsed and deduplicated by kyber entry-point pair) over 16 goroutines running the read-only method set on shared non-normalised objects of 26 kinds, plus comparison of every concurrent result with the sequential run",
+            "Shared points/scalars of all 20 groups, pairing operands and GT elements of the 5 suites, shared keys/proofs/polynomials/masks/rings/random streams for the signature, proof, PVSS, ECIES and anon schemes are used concurrently for reading only; objects are rebuilt for every repetition so lazily normalising reads are hit from their first call; the hot path contains no synchronisation of the harness's own.",
+            "happens-before race detection covers only accesses that occurred in the run; assembly is not instrumented; results compared with a sequential twin built from the same seed."),
 }
 
 PENDING = {}
